@@ -5,10 +5,10 @@ From AV Require Import Model.VTypes.
 
 Definition cfg_current : vcfg :=
   {| f_check_preds := true; f_unrev_in_schema := true; f_unrev_intervals := true;
-     f_gate_on_creddef := true; f_require_nrp := true; f_w3c_strict_subject := false;
-     f_common_link := true; f_bind_schema := false; f_w3c_norm_keys := false; f_marker := false;
+     f_gate_on_creddef := true; f_require_nrp := true; f_w3c_strict_subject := true;
+     f_common_link := true; f_bind_schema := true; f_w3c_norm_keys := true; f_marker := true;
      f_no_index_panic := true; f_no_unwrap_panic := true; f_pred_range := true;
-     f_w3c_pred_cv := false; f_group_unrevealed := false |}.
+     f_w3c_pred_cv := true; f_group_unrevealed := true; f_group_keys := true |}.
 
 (* the configuration the positive theorems are about *)
 Definition cfg_fixed : vcfg :=
@@ -16,4 +16,8 @@ Definition cfg_fixed : vcfg :=
      f_gate_on_creddef := true; f_require_nrp := true; f_w3c_strict_subject := true;
      f_common_link := true; f_bind_schema := true; f_w3c_norm_keys := true; f_marker := true;
      f_no_index_panic := true; f_no_unwrap_panic := true; f_pred_range := true;
-     f_w3c_pred_cv := true; f_group_unrevealed := true |}.
+     f_w3c_pred_cv := true; f_group_unrevealed := true; f_group_keys := true |}.
+
+(* every repaired behaviour is in the current code (each flag was flipped with its "fix:" commit) *)
+Lemma cfg_current_is_fixed : cfg_current = cfg_fixed.
+Proof. reflexivity. Qed.
